@@ -1,7 +1,7 @@
 import asyncio
 import sys
 
-from klongpy.core import KGCall, KGFn, KGFnWrapper
+from klongpy.core import KGCall, KGFn, KGFnWrapper, is_empty
 
 
 class KGTimerHandler:
@@ -21,6 +21,15 @@ class KGTimerHandler:
         return f"timer:{self.name}:{self.interval}"
 
 
+def _is_true(r):
+    """Klong truth of a callback result, as the interpreter's conditional tests it: 0, [] and "" are false."""
+    if is_empty(r):
+        return False
+    if getattr(r, "ndim", 0) > 0:
+        return True
+    return bool(r != 0)
+
+
 def _call_periodic(loop: asyncio.BaseEventLoop, name, interval, callback):
     start = loop.time()
     n = 1  # the loop handle held by the timer is armed for the boundary start + n * interval
@@ -28,7 +37,7 @@ def _call_periodic(loop: asyncio.BaseEventLoop, name, interval, callback):
     def run(handle, fn=callback):
         nonlocal n
         try:
-            r = fn()
+            r = _is_true(fn())
         except BaseException:
             # the timer dies with its callback: drop the spent loop handle so that .timerc reports 0
             handle.delegate = None
